@@ -100,6 +100,12 @@ func (ex *Exec) resetPath() {
 	ex.curFrame = nil
 	ex.inEnv = false
 	ex.objSeq = 0
+	ex.pathUnknown = false
+	// the literal index is rebuilt per path (a stale literal from a sibling
+	// path must never be taken as implied)
+	ex.pcLits = ex.pcLits[:0]
+	ex.pcHash = ex.pcHash[:0]
+	ex.pcSet = map[*Term]int{}
 	ex.mergeFail = map[mergeKey]int{}
 	ex.skipPhis = false
 	ex.rawInit = false
@@ -167,6 +173,12 @@ func (ex *Exec) runOnePath(hr *HarnessResult) {
 	if pan != nil && !ex.H.AllowPanic {
 		ex.St.Obligations++
 		ex.reportViolation("panic:"+pan.where, "panic", "uncaught panic: "+pan.msg+" at "+pan.where, nil)
+	}
+	// audit: a completed path must have a satisfiable path condition
+	if len(ex.pc) > 0 {
+		if r, _ := ex.check(ex.pc, nil); r == Unsat && !ex.pathUnknown {
+			hr.addInconclusive("engine: explored a path whose path condition is unsatisfiable (audit)")
+		}
 	}
 	if ex.pos < len(ex.trail) {
 		// replay consumed fewer decisions than recorded: nondeterminism in the engine
